@@ -401,7 +401,7 @@ class GraphData {
   bool _has_preset_value {false};
 
   // 推导信息
-  bool _active {false};
+  ::std::atomic<bool> _active {false};
   ::std::atomic<ClosureContext*> _closure {nullptr};
   ::std::atomic<int32_t> _depend_state {0};
   ::std::atomic<uint32_t> _producer_done_num {0};
